@@ -53,6 +53,14 @@ add("C19", "fault_enumeration",
     "Crash = process death with intact page cache; histories are single-threaded (the package is used under one lock by its only client). Oracle = Go map + journal of acknowledged operations.",
     "DESIGN.md §3 C19")
 
+add("C11", "exploration",
+    "Go race detector (-race build, reports with a gocoin frame) + schedule perturbation (GOMAXPROCS 1/2/4/16, pseudo-random yields at hook points, snapshot-writer speeds) + schedule-independence oracle (reference model) + snapshot observer",
+    "Held on the executions observed: histories with 100-400-input blocks (parallel hashing / script verification / UTXO workers all busy), a failing script among hundreds (early return with verifiers in flight), block trees with reorganisations, "
+    "background saves that complete, are hurried or are aborted by the next commit/undo, Close racing a save, and 3 reader goroutines using UnspentGet/TxPresent/BlockGet concurrently; after every delivery verdict, tip and full UTXO dump equal the (schedule-free) reference; "
+    "every UTXO.db that became visible under its final name was parsed and equals the reference UTXO set of the block in its header.",
+    "The race detector sees only executed access pairs. UTXO records are Go-heap allocated in this harness (the mmap allocator has no shadow memory; it is covered by C20).",
+    "DESIGN.md §3 C11")
+
 NOT_BUILT = {}
 
 def main():
